@@ -73,6 +73,9 @@ impl Exec {
     sim.snapshot(|s| {
       s.index_path = scratch_dir().join("index.redb");
       s.disk = Some(SimDisk::new(Vec::new()));
+      if std::env::var_os("ORDSIM_TRACE_DIR").is_some() {
+        s.trace_log = Some(Vec::new());
+      }
     });
     ord::verif::install(Arc::new(SimHooks(sim.clone())));
     take_panics();
